@@ -170,7 +170,7 @@ func guard(f func()) (outcome string) {
 	select {
 	case s := <-done:
 		return s
-	case <-time.After(20 * time.Second):
+	case <-time.After(120 * time.Second):
 		return "timeout"
 	}
 }
